@@ -6,14 +6,14 @@ from gen import extract_facts
 generate_facts = extract_facts.generate
 
 ID = "C04"
-LEAN_MODULES = ["Econf.Props.C04", "Econf.Props.Tie", "Econf.Props.Leaf", "Econf.Props.LeafKf", "Econf.Props.LeafMerge"]
+LEAN_MODULES = ["Econf.Props.C04", "Econf.Props.Tie", "Econf.Props.Leaf", "Econf.Props.LeafKf", "Econf.Props.LeafMerge", "Econf.Props.LeafAddNew"]
 THEOREMS = ["Econf.C04_read_total", "Econf.C04_line_total", "Econf.C04_split_lossless", "Econf.parseLine_err", "Econf.Struct.tie_parser_codes",
             "Leaf.ltrim_exec", "Leaf.rtrim_exec", "Leaf.trim_exec", "Leaf.toLowerCase_exec",
             "Leaf.stripbrackets_exec", "Leaf.C_trim", "Leaf.C_toLowerCase", "Leaf.C_stripbrackets", "Leaf.C_ltrim",
             "Leaf.check_delim_exec", "Leaf.hashstring_exec",
             "Leaf.addbrackets_exec", "Leaf.replace_str_exec", "Leaf.C_replace_str", "Leaf.replaceSpec_length",
             "LeafKf.first_entry_exec", "LeafKf.has_group_exec", "LeafKf.first_definition_exec",
-            "LeafKf.find_key_exec", "LeafKf.getFromGroupList_exec", "LeafKf.setGroupList_new", "LeafKf.setGroupList_found", "LeafKf.cpy_file_entry_exec", "LeafKf.C_fe_append", "LeafKf.insert_nogroup_exec"]
+            "LeafKf.find_key_exec", "LeafKf.getFromGroupList_exec", "LeafKf.setGroupList_new", "LeafKf.setGroupList_found", "LeafKf.cpy_file_entry_exec", "LeafKf.C_fe_append", "LeafKf.insert_nogroup_exec", "LeafKf.add_new_groups_exec"]
 # the string helpers whose C source is translated to MiniC on every run (memory safety for every input is a theorem about the translation)
 LEAF_FNS = ["stripbrackets", "addbrackets", "toLowerCase", "hashstring", "ltrim", "rtrim", "trim", "check_delim", "replace_str",
             "has_group", "first_entry", "first_definition", "getFromGroupList", "find_key",
@@ -25,6 +25,7 @@ RULE = ("three input streams under ASan+UBSan with a per-scenario timeout: (1) a
         "alone and as the inputs of a merge with that many sections in the result; x 7 delimiter sets x 3 comment sets x {default, JOIN, PYTHON, "
         "both}; after a successful read: every listing, every typed and extended getter on every key, merge with a second file in both "
         "roles, write and re-read; non-trivial = the read succeeded with at least one entry; distinct by (content, sets, options)")
+ODD_COMMENTS = [b" #", b"\t;", b"a#", b"]#"]
 DOCUMENTED = {0, 3, 9, 10, 11, 12}   # success, file not found (re-read after a refused write), the four parse errors
 
 
@@ -112,7 +113,8 @@ def scenarios(tier, rng):
     n = 0
     # (1) exhaustive short strings
     maxlen = 4 if tier == "quick" else 5
-    cfgs = [(d, c, o) for d in gen_parse.DELIMS for c in gen_parse.COMMENTS for o in gen_parse.OPTIONS]
+    # comment sets: the usual ones and, as often, unusual ones - a white space character, a letter, a bracket, the delimiter
+    cfgs = [(d, c, o) for d in gen_parse.DELIMS for c in gen_parse.COMMENTS + ODD_COMMENTS for o in gen_parse.OPTIONS]
     for content in gen_parse.exhaustive_contents(gen_parse.ALPHA1, maxlen):
         ks = rng.sample(cfgs, 1 if tier == "quick" else 3)
         for d, c, o in ks:
